@@ -27,6 +27,15 @@ def harnesses(ctx, tier):
                           desc="whole scan leaves the compiled rules, global tables and another scanner bitwise unchanged; rule: " + rule.strip(),
                           bounds="data <= %d bytes, fast mode on/off" % N,
                           functions=["yr_scanner_scan_mem_blocks", "_yr_scanner_scan_mem_block", "yr_scan_verify_match", "yr_execute_code"]))
+    SCALE = ["-DYR_MAX_STRING_MATCHES=3", "-DYR_SLOW_STRING_MATCHES=100"]
+
+    def gen_d(ctx_, outdir):
+        dump_image(ctx_, outdir, "IMG_", 'rule r { strings: $a = "a" condition: $a }\n', scale_defs=SCALE, fname="img_img.h")
+    hs.append(Harness(name="H2_frame_during_scan", src="c09/frame.c", defines=["-DVF_N=%d" % (N + 1), "-DVF_DURING=1"] + SCALE, gen=gen_d, unwind=N + 4, timeout=1200, mem_gb=24,
+                      unwind_funcs={"vf_init_tables": 257, "yr_execute_code": 16, "yr_arena_ptr_to_ref": 4}, flags=["--object-bits", "10"],
+                      desc="frame condition checked from inside the scan (every callback message, incl. the too-many-matches warning answered CONTINUE with the limit scaled to 3) and after it",
+                      bounds="data <= %d bytes; matches-per-string limit scaled to 3" % (N + 1),
+                      functions=["yr_scanner_scan_mem_blocks", "_yr_scanner_scan_mem_block", "yr_scan_verify_match", "_yr_scanner_clean_matches", "yr_execute_code"]))
     hs.append(Harness(name="H4_trycatch_use_count", src="c09/trycatch.c", unwind=4, timeout=300,
                       desc="YR_TRYCATCH signal-handler use count under nested (LIFO) overlaps of up to three scans, each protected or not",
                       bounds="3 scans, LIFO overlaps, every on/off combination", functions=["YR_TRYCATCH (exception.h)"],
